@@ -3,6 +3,14 @@
 // Contracts for package appencryption, read by /verif/gocv (comment-only; no code).
 package appencryption
 
+// ---- well-formedness of the objects the SDK builds (constructor-established; assumed of entry-point receivers) ----
+
+//@ spec fn wfE(e *envelopeEncryption) bool = e != nil && e.partition != nil && e.Metastore != nil && e.KMS != nil && e.Policy != nil && e.Crypto != nil && e.SecretFactory != nil && e.skCache != nil && e.ikCache != nil
+//@ spec fn wfCK(k *cachedCryptoKey) bool = k != nil && k.CryptoKey != nil && k.refs != nil
+
+// package-level metrics are initialised once, before any call
+//@ axiom [metrics-initialised] decryptTimer != nil && encryptTimer != nil
+
 // ---- AEAD (interface contract; fault-inclusive: any call may fail) ----
 
 //@ iface AEAD.Decrypt
@@ -61,12 +69,14 @@ package appencryption
 //@   modifies ext_calls
 //@   ensures ext_calls > old(ext_calls)
 //@   ensures (err == nil) == (result != nil)
+//@   ensures err == nil ==> wfCK(result)
 
 //@ iface keyCacher.GetOrLoadLatest
 //@   names id, loader
 //@   modifies ext_calls
 //@   ensures ext_calls > old(ext_calls)
 //@   ensures (err == nil) == (result != nil)
+//@   ensures err == nil ==> wfCK(result)
 
 //@ iface keyCacher.Close
 
@@ -119,11 +129,75 @@ package appencryption
 //@ ghost var ext_calls int
 
 //@ func (*envelopeEncryption).DecryptDataRowRecord
-//@   facet C06
+//@   facet C06, C07
+//@   safety C07
 //@   opt no-frame
+//@   requires wfE(e)
 //@   ensures [C06:foreign-id-rejected-before-any-lookup] drr.Key != nil && drr.Key.ParentKeyMeta != nil && !validIK(e.partition, old(drr.Key.ParentKeyMeta.ID)) ==> err != nil && result == nil && ext_calls == old(ext_calls)
 
 //@ func (*SessionFactory).GetSession
 //@   facet C06
 //@   opt no-frame
 //@   ensures [C06:empty-partition-refused] id == "" ==> err != nil && result == nil
+
+// ---- Metastore (interface contract; fault-inclusive; rows are arbitrary: any field may be nil/empty) ----
+
+//@ iface Metastore.Load
+//@   names ctx, keyID, created
+//@   modifies ext_calls
+//@   ensures ext_calls == old(ext_calls) + 1
+
+//@ iface Metastore.LoadLatest
+//@   names ctx, keyID
+//@   modifies ext_calls
+//@   ensures ext_calls == old(ext_calls) + 1
+
+//@ iface Metastore.Store
+//@   names ctx, keyID, created, envelope
+//@   modifies ext_calls
+//@   ensures ext_calls == old(ext_calls) + 1
+
+// ---- C07: no input record, metastore row or loader result makes the decrypt path panic ----
+
+//@ func (*envelopeEncryption).loadIntermediateKey
+//@   facet C07
+//@   safety C07
+//@   opt no-frame
+//@   requires wfE(e)
+
+//@ func (*envelopeEncryption).loadSystemKey
+//@   facet C07
+//@   safety C07
+//@   opt no-frame
+//@   requires wfE(e)
+
+//@ func decryptRow
+//@   facet C07
+//@   safety C07
+//@   opt no-frame
+//@   requires ik != nil && crypto != nil
+
+//@ func (*Session).Decrypt
+//@   facet C07
+//@   safety C07
+//@   opt no-frame
+//@   requires s != nil && s.encryption != nil
+
+//@ func (*Session).Load
+//@   facet C07
+//@   safety C07
+//@   opt no-frame
+//@   requires s != nil && s.encryption != nil && store != nil
+
+// user-supplied persistence callbacks and the Encryption interface (pure with respect to SDK state)
+//@ iface Loader.Load
+//@   names ctx, key
+//@   pure
+//@ iface Storer.Store
+//@   names ctx, d
+//@   pure
+//@ iface Encryption.DecryptDataRowRecord
+//@   names ctx, d
+//@ iface Encryption.EncryptPayload
+//@   names ctx, data
+//@ iface Encryption.Close
